@@ -7,7 +7,8 @@ Decided (E3):
   FWD    the four permute() siblings (dense, sparse, Kruskal, Tucker) all select by the order argument itself;
          an argsort(order) in one of them is the forward/inverse slip
   ORDER  order-significant arguments (permutation order, the old_modes of sparse reshape) are used as given, never sorted
-  RSHAPE sptensor.squeeze / reshape / permute: every constructing return (the nothing-stored shortcut included) uses the transformed shape
+  RSHAPE sptensor.squeeze / reshape / permute: every constructing return (the nothing-stored shortcut included) uses the transformed shape;
+         for reshape / permute that shape is a function of the REQUEST (`new_shape` / `order`): a return whose shape never mentions it is wrong
   PS-tt  ttensor.permute applies the same order to the core and to the factor list; ktensor.permute leaves the
          weights in place
 Not decided: values; round-trip identity beyond these facts; agreement across representations (needs C01).
@@ -15,7 +16,7 @@ Not decided: values; round-trip identity beyond these facts; agreement across re
 from __future__ import annotations
 
 import ast
-from typing import List
+from typing import Dict, List
 
 from ..model import Program, dotted
 from ..report import Result
@@ -25,6 +26,31 @@ FUNCS = ["tensor.tensor.permute", "tensor.tensor.reshape", "tensor.tensor.squeez
          "sptensor.sptensor.permute", "sptensor.sptensor.reshape", "sptensor.sptensor.squeeze",
          "ktensor.ktensor.permute", "ttensor.ttensor.permute"]
 PERMUTES = ["tensor.tensor.permute", "sptensor.sptensor.permute", "ktensor.ktensor.permute", "ttensor.ttensor.permute"]
+
+
+def _depends_on(fi, e: ast.expr) -> set:
+    """Names `e` may depend on, through EVERY definition of the locals involved (flow-insensitive closure)."""
+    defs: Dict[str, List[ast.expr]] = {}
+    for n in ast.walk(fi.node):
+        if isinstance(n, ast.Assign):
+            for t in n.targets:
+                for x in ast.walk(t):
+                    if isinstance(x, ast.Name):
+                        defs.setdefault(x.id, []).append(n.value)
+        elif isinstance(n, (ast.AugAssign, ast.AnnAssign)) and isinstance(n.target, ast.Name) and n.value is not None:
+            defs.setdefault(n.target.id, []).append(n.value)
+        elif isinstance(n, (ast.For, ast.comprehension)):
+            for x in ast.walk(n.target):
+                if isinstance(x, ast.Name):
+                    defs.setdefault(x.id, []).append(n.iter)
+    out, todo = set(), [e]
+    while todo:
+        cur = todo.pop()
+        for x in ast.walk(cur):
+            if isinstance(x, ast.Name) and x.id not in out:
+                out.add(x.id)
+                todo.extend(defs.get(x.id, []))
+    return out
 
 
 def check(prog: Program, res: Result, tier: str) -> None:
@@ -131,6 +157,14 @@ def check(prog: Program, res: Result, tier: str) -> None:
             res.undecided("RSHAPE", short, desc, prog.loc(fs), "no constructing return")
         elif len(shapes) == 1 and not own:
             res.ok("RSHAPE", short, desc, prog.loc(fs, shapes[0][1]), "one constructing return, with the transformed shape")
+        elif fs.name in ("reshape", "permute") and len(fs.params()) > 1 and any(
+                fs.params()[1] not in _depends_on(fs, r.value.args[2]) for _t, r in shapes):
+            # the transformed shape is a function of the REQUEST (new_shape / order): a return whose shape never mentions it cannot be right
+            req = fs.params()[1]
+            t, r = next((t, r) for t, r in shapes if req not in _depends_on(fs, r.value.args[2]))
+            res.bad("RSHAPE", short, desc, prog.loc(fs, r),
+                    f"the shape `{t[:70]}` of this return does not depend on the requested `{req}`: the result keeps (a piece of) the receiver's own "
+                    "shape on this path")
         elif own and other:
             res.bad("RSHAPE", short, desc, prog.loc(fs, own[0]),
                     f"`{ast.unparse(own[0])[:70]}` keeps the receiver's own shape while another path returns shape `{other[0][:50]}`: "
